@@ -20,7 +20,7 @@ func genC16(rt *rapid.T) *C16Spec {
 		c.Hook = genHookScript(rt, vc)
 	}
 	oc := &opConfig{ioSide: true, prints: true, maxTok: 3}
-	s := &C16Spec{Case: c, Writer: rapid.IntRange(0, 2).Draw(rt, "writer")}
+	s := &C16Spec{Case: c, Writer: rapid.IntRange(0, 3).Draw(rt, "writer")}
 	s.Prefix = genHistory(rt, oc, 5)
 	s.Suffix = genHistory(rt, oc, 4)
 	return s
